@@ -22,7 +22,7 @@ REPO = os.environ.get("MAMBA_REPO", "/repo")
 _TY_NOISE = [
     (re.compile(r"'\{erased\} "), ""),
     (re.compile(r", std::alloc::Global"), ""),
-    (re.compile(r"Closure\(DefId\([^~]*~ mamba\[[0-9a-f]+\]::([^)]*)\), \[[^\]]*\]\)"), r"{closure:\1}"),
+    (re.compile(r"Closure\(DefId\([^~]*~ mamba\[[0-9a-f]+\]::((?:[^(){}]|\{[^{}]*\})*)\)"), r"{closure:\1}"),
 ]
 
 
@@ -161,6 +161,7 @@ class Body:
         self.end_line = d["end_line"]
         self.parent = d["parent"]
         self.argc = d["argc"]
+        self.mentions = d.get("mentions", [])
         self.locals = [norm_ty(t) for t in d["locals"]]
         self.names = {}
         for pl, nm in d["names"]:
@@ -177,6 +178,20 @@ class Body:
     @property
     def loc(self):
         return f"{self.file}:{self.line}"
+
+    def fn_mentions(self):
+        """fn items mentioned as values in this body (promoted constants, temporaries, call arguments)"""
+        out = list(self.mentions)
+        for bb in self.bbs:
+            for st in bb.stmts:
+                for o in st.ops:
+                    if o.kind == "fn":
+                        out.append(o.const)
+            if bb.term.k == "call":
+                for a in bb.term.args:
+                    if a.kind == "fn":
+                        out.append(a.const)
+        return out
 
     def local_name(self, l):
         return self.names.get(str(l))
@@ -338,6 +353,8 @@ class Mir:
         cg = defaultdict(set)
         trait_impls = defaultdict(set)  # trait method decl path -> local impl fn paths (for unresolved dyn/generic calls)
         for b in self.fns.values():
+            for m in b.mentions:
+                cg[b.path].add(m)
             for bb in b.bbs:
                 t = bb.term
                 if t.k == "call":
